@@ -71,6 +71,9 @@ def centroid_1dg(data, error=None, mask=None):
     """
     (data, error), _ = process_quantities((data, error), ('data', 'error'))
 
+    if isinstance(data, np.ma.MaskedArray):
+        # copy because the mask is modified below
+        data = data.copy()
     data = np.ma.asanyarray(data)
 
     if mask is not None and mask is not np.ma.nomask:
@@ -146,7 +149,8 @@ def _gaussian1d_moments(data, mask=None):
                       'inf) that were automatically masked.',
                       AstropyUserWarning)
     else:
-        data = np.ma.array(data)
+        # copy because the mask is modified below
+        data = np.ma.array(data, copy=True)
 
     if mask is not None and mask is not np.ma.nomask:
         mask = np.asanyarray(mask)
@@ -154,8 +158,7 @@ def _gaussian1d_moments(data, mask=None):
             raise ValueError('data and mask must have the same shape.')
         data.mask |= mask
 
-    data.fill_value = 0.0
-    data = data.filled()
+    data = data.filled(0.0)
 
     x = np.arange(data.size)
     x_mean = np.sum(x * data) / np.sum(data)
@@ -224,6 +227,9 @@ def centroid_2dg(data, error=None, mask=None):
 
     (data, error), _ = process_quantities((data, error), ('data', 'error'))
 
+    if isinstance(data, np.ma.MaskedArray):
+        # copy because the mask is modified below
+        data = data.copy()
     data = np.ma.asanyarray(data)
 
     if mask is not None and mask is not np.ma.nomask:
@@ -256,8 +262,7 @@ def centroid_2dg(data, error=None, mask=None):
         weights[data.mask] = 0.0
 
     mask = data.mask
-    data.fill_value = 0.0
-    data = data.filled()
+    data = data.filled(0.0)
 
     # Subtract the minimum of the data to make the data values positive.
     # This prevents issues with the moment estimation in data_properties.
